@@ -31,6 +31,10 @@ GenVals(t) ==
   LET T == TypeTab[t] IN
   IF T.kind = "int" THEN (IF T.bits <= 8 THEN IntVals(T) ELSE EdgeVals(T)) ELSE FltEdge(T)
 
+(* element values of the sink prints: numerals of 1 .. 20 characters *)
+SinkPicks(t) == LET T == TypeTab[t] IN
+                {IntLo(T), IntHi(T), NatNum(0), NatNum(3), NatNum(12), NatNum(100)} \cup (IF T.sg = 1 THEN {IntNum(1, FromInt(5))} ELSE {})
+
 GenPrint(api, t, v, f, left) ==
   IF TypeTab[t].kind = "flt" /\ ~FltDesign
   THEN obs' = [a |-> "print",
@@ -50,6 +54,11 @@ GenNext ==
        [] obs.arg.kind = "rtext" ->
             \E s \in StringsOver(RAlphabet, obs.arg.first, RLen), lo \in RPicks(obs.arg.dst), hi \in RPicks(obs.arg.dst) :
                RText(obs.arg.dst, obs.arg.base, s, lo, hi)
+       [] obs.arg.kind = "sink" ->
+            \/ \E v \in SinkPicks(obs.arg.src), api \in {"value", "conv"} :
+                  PrintSink(api, obs.arg.src, v, obs.arg.pol, obs.arg.cap, obs.arg.left)
+            \/ \E n \in 0..2 : \E vs \in [1..n -> SinkPicks(obs.arg.src)] :
+                  PrintVec(obs.arg.src, vs, obs.arg.pol, obs.arg.cap, obs.arg.left)
        [] obs.arg.kind = "vec" ->
             \E n \in 0..VecLen : \E vs \in [1..n -> Picks(obs.arg.src)] :
                /\ (obs.arg.sk = "scalar" => n = 1)
